@@ -203,3 +203,53 @@ prop(
     ],
     floor={"quick": 300, "thorough": 5000},
 )
+
+prop(
+    "C01",
+    title="SPDX 2.3 write-then-read round trip preserves the SBOM graph",
+    level="exploration",
+    technique="property-based round-trip testing through the public writer/reader with a spec-derived expressibility projection (rapid) + exhaustive enum sweep",
+    design_ref="DESIGN.md §5 C01",
+    rule=("rapid draws documents with 0-8 nodes (distinct valid SPDX ids, PACKAGE or FILE), an independent random subset of all Node attributes "
+          "(unicode text JSON carries without escapes; 0-3 purposes over all 30 enum values; hashes over all 18 algorithm numbers; the four identifier "
+          "kinds; 0-3 external references over all 62 types; 0-2 suppliers/originators; three dates over years 1-9999 with nanoseconds), 0-8 edges over "
+          "relationship types 1..44 with 0-3 targets (self loops, cycles, repeated source/type, repeated targets, isolated nodes), 0-3 roots (repeats), "
+          "indent 0-8. Sweep: each of the 44 relationship types x 4 indents, 16 shared algorithms x {package,file}, 12 native purposes. "
+          "Non-trivial = >=2 nodes, >=1 edge target and one of {date set, originator set, >=2 purposes, file node}; distinct = digest of the document's wire bytes and indent."),
+    assumptions=["text outside 'JSON carries without escapes' and ids outside [A-Za-z0-9.-]+ are outside the stated domain (tools-golang reads ids/actors from raw JSON text)",
+                 "external references carry a URL (URL-less references are documented as skipped)", "declared licence list is not carried by the SPDX driver and not asserted"],
+    level_text=("write -> read -> compare on node (id, kind) multiset, typed-edge triple set, root set and the per-node projection onto what SPDX 2.3 can "
+                "carry (tables written from the SPDX 2.3 specification, not from protobom's), then a second pass that must change nothing."),
+    level_note="trusts rapid and the harness's projection tables (harness/props/c01_test.go); goes through writer.WriteStreamWithOptions and reader.ParseStream with auto-detection",
+    jobs=[
+        {"test": "TestC01", "checks": 3000, "timeout": 300, "thorough": {"checks": 40000, "shards": 16, "timeout": 1700}},
+        {"test": "TestC01Sweep", "rapid": False, "timeout": 120},
+    ],
+    floor={"quick": 500, "thorough": 20000},
+)
+
+prop(
+    "C02",
+    title="CycloneDX write-then-read round trip preserves components and containment",
+    level="exploration",
+    technique="property-based round-trip testing with schema-derived projection tables (rapid) + exhaustive enumeration of small trees x edge-list permutations",
+    design_ref="DESIGN.md §5 C02",
+    rule=("rapid draws single-rooted containment trees with 1-10 nodes (depth up to 10; chains favoured half of the time), the edge list stored in "
+          "uniformly random / parent-first / child-first order, merged or split per source, nodes permuted; per node: name, version, description, "
+          "copyright (arbitrary valid UTF-8 incl. escapes and control characters), kind, 0-2 purposes over all values, hashes over all algorithm numbers, "
+          "purl, CPE 2.2/2.3/both, 0-1 licence, 0-3 external references over all 62 types with comment and hashes; serial number, numeric version, 0-3 "
+          "lifecycle document types; format 1.4 or 1.5. Exhaustive: all recursive trees with <=5 nodes x all permutations of the edge list x "
+          "{split,merged} x {node order, reversed} x {1.4,1.5}. Non-trivial = depth >=3 with the edge list not in child-first order, or a file node, "
+          "or a reference with hashes; distinct = digest of document wire bytes and format."),
+    assumptions=["identifiers do not start with the reserved 'protobom-' prefix", "package nodes whose first purpose maps to component type 'file' are excluded (they are files in CycloneDX)",
+                 "at most one licence per node (KF-01) and Metadata.Name empty or equal to the root's name (KF-03)"],
+    level_text=("write -> read -> compare node set, containment-edge set, root, per-node CycloneDX-expressible attributes (tables from the CycloneDX "
+                "1.4/1.5 schemas), serial number, version, lifecycles (1.5); second pass must change nothing. Small trees are covered exhaustively."),
+    level_note="trusts rapid, the harness's projection tables (harness/props/c02_test.go) and cyclonedx-go's documented down-conversion of 1.5-only reference types at 1.4 (either outcome accepted)",
+    jobs=[
+        {"test": "TestC02", "checks": 2500, "timeout": 300, "thorough": {"checks": 25000, "shards": 12, "timeout": 1700}},
+        {"test": "TestC02Exhaustive", "rapid": False, "exhaustive": True, "replay_test": "TestC02Replay", "timeout": 600, "shards": 4},
+        {"test": "TestC02Findings", "rapid": False, "timeout": 60},
+    ],
+    floor={"quick": 500, "thorough": 10000},
+)
